@@ -583,6 +583,12 @@ static RunResult reap(Child& c)
     int st = 0;
     waitpid(c.pid, &st, 0);
     r.status = st;
+    // scratch file of the writer's realfile family, should the child have died before removing it
+    for (const char* base : {"/dev/shm", "/tmp"}) {
+        std::string d = std::string{base} + "/utapsim." + std::to_string(c.pid);
+        unlink((d + "/out.xml").c_str());
+        rmdir(d.c_str());
+    }
     parse_child_output(c, r);
     if (c.errfd >= 0) {
         off_t n = lseek(c.errfd, 0, SEEK_END);
